@@ -122,6 +122,12 @@ def snapshot(root):
 def cases(tier, seed):
     for depth, emit, recursive, flt, dry in itertools.product((2, 3), EMITS if tier != "quick" else ("class", "function", "sqlalchemy"), (False, True), EXPOSED_FILTERS, (False, True)):
         yield dict(depth=depth, partial_all=False, emit=emit, recursive=recursive, filter=flt, dry_run=dry, out_exists=False, sqlalchemy_submodule=False)
+        if depth == 3 and (tier != "quick" or emit == "class"):
+            # the same with the output directory named like the target module (the layout the repository's own tests use)
+            yield dict(depth=depth, partial_all=False, emit=emit, recursive=recursive, filter=flt, dry_run=dry, out_exists=False, sqlalchemy_submodule=False, out_is_target=True)
+    for depth, emit, recursive, flt, dry in itertools.product((2, 3), ("class", "sqlalchemy") if tier == "quick" else EMITS, (False, True), ("none", "blacklist_alpha", "blacklist_sub"), (False, True)):
+        if not (flt == "blacklist_sub" and depth < 2):
+            yield dict(depth=depth, partial_all=False, emit=emit, recursive=recursive, filter=flt, dry_run=dry, out_exists=False, sqlalchemy_submodule=False, out_is_target=True)
     # another package layout: re-export through the sub-package's own __init__, classes with typing annotations
     for depth, emit, recursive, dry in itertools.product((2, 3), EMITS if tier != "quick" else ("class", "function", "sqlalchemy", "pydantic"), (False, True), (False, True)):
         yield dict(depth=depth, partial_all=False, emit=emit, recursive=recursive, filter="none", dry_run=dry, out_exists=False, sqlalchemy_submodule=False, layout="via_subpackage_typed")
@@ -150,7 +156,7 @@ def cases(tier, seed):
 def _run(case):
     root = os.path.realpath(tempfile.mkdtemp(prefix="c20_"))
     viol = []
-    ctx = dict(check="exmod", emit=case["emit"], dry_run=case["dry_run"], recursive=case["recursive"], filter=case["filter"], out_exists=case["out_exists"],
+    ctx = dict(check="exmod", emit=case["emit"], dry_run=case["dry_run"], recursive=case["recursive"], filter=case["filter"], out_exists=case["out_exists"], **(dict(out_is_target=True) if case.get("out_is_target") else {}),
                sqlalchemy_submodule=case["sqlalchemy_submodule"], depth=case["depth"], partial_all=case["partial_all"])
 
     def v(clause, expected, observed, **extra):
@@ -167,7 +173,7 @@ def _run(case):
         os.makedirs(work)
         os.makedirs(os.path.join(root, "decoy_sibling"))
         write(os.path.join(root, "decoy_sibling", "keep.txt"), "keep\n")
-        out = os.path.join(work, "out")
+        out = os.path.join(work, "gold" if case.get("out_is_target") else "out")  # "gold": the output directory is named like --target-module-name
         if case["out_exists"]:
             os.makedirs(out)
         os.chdir(work)
@@ -184,6 +190,8 @@ def _run(case):
             argv.append("--emit-sqlalchemy-submodule")
         if case.get("flags"):
             argv += case["flags"]
+        if case.get("out_is_target"):
+            argv += ["--target-module-name", "gold"]
         if case["filter"] == "blacklist_alpha":
             argv += ["--blacklist", PKG + ".alpha"]
         elif case["filter"] == "whitelist_alpha":
